@@ -316,4 +316,24 @@ func runC03(c *core.Ctx) {
 			c.Sample(map[string]any{"input": q(src)})
 		}
 	}
+	// 3. attribute blocks on the constructs that accept them: allowed names, look-alikes that collide with an allowed name
+	// under the hash of the allow-list (wl.HashTwins), foreign names, hostile values
+	n3 := c.PerShard(c.N(120000, 4000000))
+	for i := 0; i < n3; i++ {
+		var src []byte
+		ab := wl.AttrBlockWith(r, 2)
+		switch r.Intn(5) {
+		case 0:
+			src = append(append([]byte("Setext \"<&"), ab...), "\n===\n"...)
+		case 1:
+			src = append(append([]byte("```go"), ab...), "\n<b>\n```\n"...)
+		case 2:
+			src = append(append([]byte("> ## a *b*"), ab...), "\n"...)
+		default:
+			src = append(append([]byte("# h"), ab...), "\n"...)
+		}
+		sp := cfg.Spec{Ext: []int{cfg.ExtCore, cfg.ExtAll, cfg.ExtGFM}[r.Intn(3)], Attribute: true, AutoHeadingID: r.Intn(2) == 0, XHTML: r.Intn(2) == 0}
+		c03Check(c, pool, sp, src)
+		c.Count("attribute_block_documents", 1)
+	}
 }
